@@ -66,7 +66,7 @@ class C17(Check):
     lean_targets = ["drv_c17"]
     driver = "drv_c17"
     theorems = ["Pox.C17.ports_refine", "Pox.C17.ports_by_attr", "Pox.C17.own_entries_unique", "Pox.C17.init_iff",
-                "Pox.C17.readd_deleted", "Pox.C17.renamed_unreachable", "Pox.C17.legacy_rename_defect",
+                "Pox.C17.readd_deleted", "Pox.C17.renamed_unreachable", "Pox.C17.mask_on_readd_irrelevant", "Pox.C17.legacy_rename_defect",
                 "Pox.C17.legacy_delete_add_defect", "Pox.C17.stats_refine", "Pox.C17.stats_once", "Pox.C17.stats_no_merge",
                 "Pox.C17.stats_never_raises", "Pox.C17.other_messages_frame", "Pox.C17.legacy_interleave_defect",
                 "Pox.C17.legacy_stale_part_defect", "Pox.C17.legacy_unknown_type_raises"]
